@@ -27,3 +27,78 @@ Proof.
   rewrite (qf_msub n) in P1 by assumption. rewrite (qf_msub n) in P2 by assumption.
   split; lra.
 Qed.
+
+(* ---------- the dense matrix of a sketch has the sketch's quadratic form ---------- *)
+Lemma outer_wf (v : vec) : wf (length v) (outer v v).
+Proof.
+  unfold outer. split; [apply map_length|]. apply Forall_forall. intros r Hr.
+  apply in_map_iff in Hr as [a [<- _]]. apply map_length.
+Qed.
+
+Lemma qf_outer (v x : vec) : qf (outer v v) x == dot v x * dot v x.
+Proof.
+  unfold qf, mv, outer. rewrite map_map.
+  assert (E : dot x (map (fun a : Q => dot (map (fun b : Q => a * b) v) x) v)
+           == dot x (map (fun a : Q => a * dot v x) v)).
+  { apply dot_map_ext. intros a _. change (map (fun b : Q => a * b) v) with (vscale a v).
+    apply dot_vscale. }
+  rewrite E. rewrite (dot_map_scale (fun a : Q => a) (dot v x) v x). rewrite map_id.
+  rewrite (dot_comm x v). ring.
+Qed.
+
+Lemma zeros_wf n : wf n (zeros n).
+Proof.
+  unfold zeros. split; [apply repeat_length|]. apply Forall_forall. intros r Hr.
+  apply repeat_spec in Hr. subst. apply repeat_length.
+Qed.
+
+Lemma qf_zeros n x : qf (zeros n) x == 0.
+Proof.
+  unfold qf, mv, zeros.
+  assert (E : forall k (y : vec), dot y (map (fun r : vec => dot r x) (repeat (repeat 0 n) k)) == 0).
+  { induction k as [|k IH]; intros [|b y]; simpl; try reflexivity.
+    rewrite IH. assert (Z : dot (repeat 0 n) x == 0).
+    { clear. revert x. induction n as [|n IHn]; intros [|c x]; simpl; try reflexivity. rewrite IHn. ring. }
+    rewrite Z. ring. }
+  apply E.
+Qed.
+
+Lemma sketch_mat_form n : forall (V : list vec) (l : vec) (M : mat) (x : vec),
+  wf n M -> Forall (fun v => length v = n) V ->
+  let R := fold_left (fun M '(v, li) => madd M (mscale li (outer v v))) (combine V l) M in
+  wf n R /\ qf R x == qf M x + sketch_form (firstn (length l) V) (firstn (length V) l) x.
+Proof.
+  induction V as [|v V IH]; intros l M x HM HV.
+  - simpl. split; [exact HM|]. unfold sketch_form, coeffs. destruct l; simpl; ring.
+  - destruct l as [|li l].
+    + simpl. split; [exact HM|]. unfold sketch_form. simpl. ring.
+    + inversion HV as [|? ? Hv HV']; subst. cbn [combine fold_left].
+      assert (HO : wf (length v) (mscale li (outer v v))) by (apply mscale_wf, outer_wf).
+      assert (HM' : wf (length v) (madd M (mscale li (outer v v)))) by (apply madd_wf; assumption).
+      destruct (IH l (madd M (mscale li (outer v v))) x HM' HV') as [W Q].
+      split; [exact W|]. rewrite Q.
+      rewrite (qf_madd (length v)) by assumption. rewrite qf_mscale, qf_outer.
+      unfold sketch_form, coeffs. cbn [length firstn map dot]. ring.
+Qed.
+
+Theorem sketch_mat_is_form n (V : list vec) (l : vec) (x : vec) :
+  Forall (fun v => length v = n) V -> length V = length l ->
+  qf (sketch_mat n V l) x == sketch_form V l x.
+Proof.
+  intros HV Hl. unfold sketch_mat.
+  destruct (sketch_mat_form n V l (repeat (repeat 0 n) n) x (zeros_wf n) HV) as [_ Q].
+  rewrite Q. fold (zeros n). rewrite qf_zeros.
+  rewrite <- Hl at 1. rewrite firstn_all. rewrite Hl. rewrite firstn_all. ring.
+Qed.
+
+(* the run-time bracket verdict, stated on the sketch's own quadratic form *)
+Theorem chk_bracket_sound_form tau n C V l t :
+  chk_bracket tau n C V l t = true ->
+  Forall (fun v => length v = n) V -> length V = length l ->
+  forall x, length x = n ->
+    sketch_form V l x - tau * dot x x <= qf C x /\
+    qf C x <= sketch_form V l x + (t + tau) * dot x x.
+Proof.
+  intros H HV Hl x Hx. destruct (chk_bracket_sound tau n C V l t H x Hx) as [H1 H2].
+  rewrite (sketch_mat_is_form n V l x HV Hl) in H1, H2. split; assumption.
+Qed.
